@@ -159,6 +159,56 @@ Example C13_withdraw_nonvacuous :
   forallb matured_ok ops = true /\ cget (crun [] ops) 1 = (0, 10) /\ paid_of [] ops 1 = 10.
 Proof. vm_compute. auto. Qed.
 
+(* state export / import (olfullnode save_state -> genesis -> InitChain: RewardStore.dumpState /
+   loadState).  The chunks are copied as they are; what decides which chunk is credited and which
+   matures on the relaunched chain is the single interval record {index, 2} that the export
+   writes.  For ALL export versions V >= 0 — multiples of the reward interval included — of a chain
+   that started from an ordinary genesis:
+   (1) the record names the chunk that was open (credited) at V;
+   (2) on the relaunched chain every credit goes to a chunk beyond it: exported chunks are final;
+   (3) the exporter's last maturity block matured the chunk two below the open one, and
+   (4) the k-th maturity block of the relaunched chain matures the chunk k-2 above it:
+       the successor of the exporter's frontier first, then one by one.
+   So across the relaunch every chunk matures exactly once and in order: no reward is added to a
+   matured balance twice. *)
+Theorem C13_export_open_chunk : forall o V, 0 < o_interval o -> 0 <= V ->
+  dump_interval o [] V = mkIvl (V / o_interval o + 1) 2 /\
+  iv_index (dump_interval o [] V) = chunk_idx o [] V.
+Proof. exact export_open_chunk. Qed.
+Print Assumptions C13_export_open_chunk.
+
+Theorem C13_import_credits_fresh_chunks : forall o V h, 0 < o_interval o -> 0 <= V -> 2 <= h ->
+  chunk_idx o [] V < chunk_idx o (load_intervals (dump_interval o [] V)) h.
+Proof. exact import_credits_fresh. Qed.
+
+Theorem C13_export_frontier : forall o V, 0 < o_interval o -> 0 <= V ->
+  matured_idx o [] (last_maturity_height o V) = chunk_idx o [] V - 2.
+Proof. exact export_frontier. Qed.
+
+Theorem C13_import_matures_exactly_once : forall o V k, 2 <= o_interval o -> 0 <= V -> 1 <= k ->
+  matured_idx o (load_intervals (dump_interval o [] V)) (k * o_interval o) = chunk_idx o [] V + k - 2.
+Proof. exact import_maturity_sequence. Qed.
+Print Assumptions C13_import_matures_exactly_once.
+
+Theorem C13_import_matures_exactly_once_interval_1 : forall o V h, o_interval o = 1 -> 0 <= V -> 2 <= h ->
+  matured_idx o (load_intervals (dump_interval o [] V)) h = chunk_idx o [] V + h - 3.
+Proof. exact import_maturity_sequence_1. Qed.
+
+(* the directed witness of corpus/C13.json: interval 5, export at V = 10 (a maturity block).  The
+   exporter matured chunk 1 at height 10 and has chunk 3 open; the record is {3, 2}; the relaunched
+   chain credits chunk 4 from height 2 on and matures chunk 2 at height 5, chunk 3 at height 10.
+   (With the record {2, 2} — what rounding the index up instead of floor+1 gives at a multiple of
+   the interval, seeded/C13_4 — height 5 would mature chunk 1 a second time.) *)
+Example C13_export_at_multiple_of_interval :
+  let o := mkOpts 100 1728 86400 [70000000000000000000000000] 5000000000000000000 5 in
+  dump_interval o [] 10 = mkIvl 3 2 /\
+  matured_idx o [] 10 = 1 /\
+  chunk_idx o (load_intervals (dump_interval o [] 10)) 2 = 4 /\
+  matured_idx o (load_intervals (dump_interval o [] 10)) 5 = 2 /\
+  matured_idx o (load_intervals (dump_interval o [] 10)) 10 = 3 /\
+  matured_idx o (load_intervals (mkIvl 2 2)) 5 = 1.
+Proof. vm_compute. auto 10. Qed.
+
 (* the WITHDRAW_REWARD transaction on the application path (CheckTx and DeliverTx both run
    Validate).  A negative amount (45cfd0d) and an amount that does not fit int64 (ed95e98) are
    refused and leave both records unchanged.  Over ALL amounts: the transaction is either refused
